@@ -6,4 +6,11 @@ import BnpVerif.Props.C17
 #print axioms C17.fetch_contig
 #print axioms C17.random_access
 #print axioms C17.contig_lengths
+#print axioms C17.index_chunks
+#print axioms C17.fai_roundtrip
+#print axioms C17.genome_sizes
+#print axioms C17.fai_file
+#print axioms C17.traced_kernel
+#print axioms C17.traced_bytes_to_read
+#print axioms C17.fetch_uses_traced
 #print axioms C17.contig_lengths_old_unsound
